@@ -79,8 +79,12 @@ def run(ctx):
     K.decide_standard(ctx, corrs, texts)
     # call-site granularity: a row that breaks the discipline and is not in the recorded list is new
     import json
-    with open(os.path.join(K.VERIF, "known_findings.d", "C10.json")) as fh:
-        recorded = set(json.load(fh).get("offenders", []))
+    # recorded call-site rows (committed next to the check; read-only at run time)
+    recorded = set()
+    op = os.path.join(K.VERIF, "checks", "c10_offenders.json")
+    if os.path.exists(op):
+        with open(op) as fh:
+            recorded = set(json.load(fh).get("offenders", []))
     offenders = sorted(set(l.split("C10-OFFENDER ", 1)[1].strip() for l in r.log.splitlines() if "C10-OFFENDER " in l))
     ctx.cov["offending_rows"] = len(offenders)
     new = [o for o in offenders if o not in recorded]
